@@ -185,6 +185,7 @@ func (c *Cache[K, V]) enqueue(s *shard[K, V], cmd writeCommand[K, V]) error {
 // awaitResult waits for a command's ack, abandoning the wait if the cache shuts
 // down so callers never hang on a command that won't be processed.
 func (c *Cache[K, V]) awaitResult(ch chan struct{}) error {
+	verifYield(340)
 	select {
 	case <-ch:
 		return nil
